@@ -26,6 +26,7 @@ type (
 	// Ledger is an interface to Blockchain sufficient for Oracle.
 	Ledger interface {
 		BlockHeight() uint32
+		CalculateAttributesFee(tx *transaction.Transaction) int64
 		FeePerByte() int64
 		GetBaseExecFee() int64
 		GetConfig() config.Blockchain
